@@ -286,3 +286,97 @@ func vh_token_aware() {
 	}
 	vObserve("n", len(seq))
 }
+
+// ---- token-aware end to end: routing key -> token -> ring -> replicas -> offered hosts ----
+//
+// The pieces decided separately (C09 token of a key, C10 replicas of a token, the replica-first order
+// above) are run together through the policy's own bookkeeping: SetPartitioner / AddHost / RemoveHost /
+// HostDown build the token ring and the replica map, Pick hashes the query's routing key. Ordered
+// partitioner (token = key bytes), three hosts owning one token each, SimpleStrategy rf = 2.
+func vh_token_aware_e2e() {
+	tp := TokenAwareHostPolicy(RoundRobinHostPolicy()).(*tokenAwareHostPolicy)
+	tp.getKeyspaceName = func() string { return "ks" }
+	tp.getKeyspaceMetadata = func(ks string) (*KeyspaceMetadata, error) {
+		return &KeyspaceMetadata{Name: ks, StrategyClass: "SimpleStrategy", StrategyOptions: map[string]interface{}{"class": "SimpleStrategy", "replication_factor": 2}}, nil
+	}
+	tp.logger = vNopLogger{}
+	toks := []string{"d", "m", "t"}
+	hosts := make([]*HostInfo, 3)
+	for i := range hosts {
+		hosts[i] = &HostInfo{hostId: string(rune('a' + i)), connectAddress: net.IPv4(10, 0, 0, byte(i+1)), tokens: []string{toks[i]}, state: NodeUp, dataCenter: "dc", rack: "r"}
+	}
+	tp.SetPartitioner("OrderedPartitioner")
+	// membership history: all three join (any order), optionally one leaves again
+	order := [][]int{{0, 1, 2}, {2, 0, 1}, {1, 2, 0}}[vChoose("join_order", 3)]
+	for _, i := range order {
+		tp.AddHost(hosts[i])
+	}
+	gone := -1
+	if vBool("one_host_removed") {
+		gone = vChoose("gone", 3)
+		tp.RemoveHost(hosts[gone])
+	}
+	down := -1
+	if vBool("one_host_down") {
+		down = vChoose("down", 3)
+		if down != gone {
+			hosts[down].setState(NodeDown)
+			tp.HostDown(hosts[down])
+		} else {
+			down = -1
+		}
+	}
+	key := vBytesN("key", 1)
+	q := &Query{routingKey: key, getKeyspace: func() string { return "ks" }}
+	var seq []*HostInfo
+	next := tp.Pick(q)
+	for i := 0; i < 4; i++ {
+		s := next()
+		if s == nil {
+			break
+		}
+		seq = append(seq, s.Info())
+	}
+	// reference: members in ring order; the owner of the key is the first member whose token >= key,
+	// wrapping to the smallest token; replicas = owner and the next member (rf 2)
+	var members []int
+	for i := 0; i < 3; i++ {
+		if i != gone {
+			members = append(members, i)
+		}
+	}
+	owner := 0
+	found := false
+	for idx, m := range members {
+		if !found && key[0] <= toks[m][0] {
+			owner, found = idx, true
+		}
+	}
+	var want []*HostInfo
+	nrep := 2
+	if len(members) < nrep {
+		nrep = len(members)
+	}
+	for k := 0; k < nrep; k++ {
+		h := hosts[members[(owner+k)%len(members)]]
+		if h.state == NodeUp {
+			want = append(want, h)
+		}
+	}
+	ok := len(seq) >= len(want)
+	for i := 0; ok && i < len(want); i++ {
+		ok = seq[i] == want[i]
+	}
+	vAssert(ok, "C11/tokenaware/e2e/up-replicas-of-the-keys-token-first-primary-first")
+	up := 0
+	for _, m := range members {
+		if hosts[m].state == NodeUp {
+			up++
+		}
+	}
+	vAssert(len(seq) == up && vNoDup(seq), "C11/tokenaware/e2e/every-up-member-once")
+	for _, s := range seq {
+		vAssert(s.state == NodeUp && (gone < 0 || s != hosts[gone]), "C11/tokenaware/e2e/only-up-members")
+	}
+	vObserve("n", len(seq))
+}
